@@ -56,17 +56,17 @@ Definition check_vm (impl_code : list ipos) (o : obs) (stdout : list Z) (gvars :
   | None => 3
   | Some (mo, ms) =>
       if negb (obs_eqb mo o) then 3
-      else if negb (out_eqb (out (mscreen ms)) stdout) then 4
+      else if negb (out_eqb (out (mscr (mscreen ms))) stdout) then 4
       else if negb (env_eqb (mvars ms) gvars) then 5 else 0
   end.
 
 (** the property itself: the real run ends as the reference semantics prescribe *)
 Definition check_sem (dims : list (name * pos)) (p : program) (o : obs) (stdout : list Z) (gvars : env) (fuel : nat) : nat :=
-  match obs_of_s (exec_program num_text is_negative fuel p (mk_state (map (fun d => (fst d, default_of (snd (fst d)))) dims) dev0)) with
+  match obs_of_s (exec_program num_text is_negative fuel p (mk_state (map (fun d => (fst d, default_of (snd (fst d)))) dims) io0)) with
   | None => 6
   | Some (so, ss) =>
       if negb (obs_eqb so o) then 6
-      else if negb (out_eqb (out (screen ss)) stdout) then 7
+      else if negb (out_eqb (out (scr (screen ss))) stdout) then 7
       else if negb (env_eqb (vars ss) gvars) then 8 else 0
   end.
 
